@@ -357,6 +357,10 @@ class Gen:
             return self.component_ref(d)
         if c == 8:
             return self.complex_lit()
+        if r.chance(50):
+            return self.array_cons(d)
+        if r.chance(25):
+            return "int(%s)" % r.pick(["z'1F'", "b'1011'", "o'17'", 'z"ff"', "B'0'"])      # boz-literal-constant (R411)
         return self.array_ref(d)
 
     def num_tree(self, d):
@@ -383,6 +387,8 @@ class Gen:
         if c <= 2:
             return r.pick(STR_LITS)
         if c == 3:
+            if r.chance(25):
+                return "%s(%s:%s)" % (r.pick(["'abcdef'", '"xyz uvw"']), self.small_int(), r.pick(["", "3", "n"]))   # R609 on a literal
             return "%s(%s:%s)" % (self.name(CHR_NAMES), self.small_int(), self.int_expr(0))
         return "trim(%s)" % self.name(CHR_NAMES)
 
@@ -633,6 +639,9 @@ class Gen:
             lambda: "data %s /%s/" % (nm(), r.pick(REAL_LITS)),
             lambda: "data %s, %s /1, 2/, %s /3*0.0/" % (nm(INT_NAMES), nm(), nm(ARR_NAMES)),
             lambda: "data (%s(%s), %s = 1, 3) /1.0, 2.0, 3.0/" % (nm(ARR_NAMES), "i", "i"),
+            lambda: "data %s /%s/, %s /%s/" % (nm(INT_NAMES), r.pick(["z'1F'", "b'101'", "o'17'"]), nm(INT_NAMES), r.pick(['Z"ff"', "B'0'"])),
+            lambda: "data ((%s(i, j), i = 1, 2), j = 1, 3) /6*0/" % nm(ARR_NAMES),
+            lambda: "data %s%%%s, %s(2) /1, 2*%s/" % (nm(OBJ_NAMES), nm(COMP_NAMES), nm(ARR_NAMES), r.pick(["0", "pi", "null()"])),
             lambda: "parameter (%s = %s)" % (nm(), self.expr("num", 1)),
             lambda: "allocatable {+:: }%s" % nm(ARR_NAMES),
             lambda: "allocatable :: %s(:, :)" % nm(ARR_NAMES),
@@ -801,6 +810,13 @@ class Gen:
         if c <= 7:
             return self.assign_stmt()
         if c == 8:
+            if r.chance(30):
+                # bounds-spec-list / bounds-remapping-list (R735) and a component as pointer object
+                lhs = r.pick(["%s(%s:)" % (self.name(OBJ_NAMES), self.small_int()),
+                              "%s(1:%s, 0:%s)" % (self.name(OBJ_NAMES), self.small_int(), self.name(INT_NAMES)),
+                              "%s(0:, %s:)" % (self.name(OBJ_NAMES), self.name(INT_NAMES)),
+                              "%s%%%s" % (self.name(OBJ_NAMES), self.name(COMP_NAMES))])
+                return S("%s => %s" % (lhs, r.pick([self.name(ARR_NAMES), self.name(OBJ_NAMES)])), "ptr_assign", removable=True)
             return S("%s => %s" % (self.name(OBJ_NAMES), r.pick(["null()", self.name(OBJ_NAMES), self.array_ref(1)])),
                      "ptr_assign", removable=True)
         if c <= 10:
@@ -814,6 +830,8 @@ class Gen:
                 else:
                     args.append(self.variable("num"))
             nm = self.name(SUB_NAMES)
+            if r.chance(8) and "new_target" in ctx:
+                args.append("*%s" % ctx["new_target"]())         # alt-return-spec (R1222)
             if r.chance(15):
                 nm = "%s%%%s" % (self.name(OBJ_NAMES), r.pick(["m", "run"]))
             if not args:
